@@ -464,7 +464,7 @@ pub fn run_c04(spec: &crate::Spec) -> Report {
     let packed = vals.iter().rev().find(|v| reffmt::values(row, v).is_ok()).unwrap().clone();
     for prefix in ["p", ""] {
         for dl in &dlists {
-            for dc in [None, Some("dc"), Some("default-container-id")] {
+            for dc in [None, Some("dc"), Some("default-container-id"), Some("")] {
                 let cfg = ClientCfg {
                     prefix: prefix.to_string(),
                     tags: dl.clone(),
